@@ -179,6 +179,15 @@ def finish(prop_id, tier, seed, mod, plan, reports, t0, relock, repo_root):
         rec["reproduced_natively"] = reproduced
         with open(path, "w") as f:
             json.dump(rec, f, indent=1, default=str)
+        candidate_only = isinstance(bad.get("model"), dict) and "__candidate__" in bad["model"]
+        if not reproduced and candidate_only:
+            # the solver only had finitely many instances of quantified hypotheses and could not
+            # confirm the counter-model against the quantified ones; without a native
+            # reproduction this is undecided, not a violation
+            errors.append({"target": rep.get("target"),
+                           "error": f"obligation {n}: candidate counter-model (quantified hypotheses "
+                                    "partially instantiated) did not reproduce natively"})
+            continue
         if not reproduced and n not in locked and not relock and locked:
             # a new obligation whose counter-model does not replay: undecided, not a violation
             errors.append({"target": rep.get("target"),
